@@ -174,8 +174,6 @@ class TemplateData(object):
         # Do not wire more than once
         if self._is_wired:
             return
-        else:
-            self._is_wired = True
 
         # For compressed data, the wiring is the same for all subsets.
         n_subsets = 1 if self.is_compressed else self.n_subsets
@@ -201,6 +199,9 @@ class TemplateData(object):
 
             # release memory
             del self.index_to_node
+
+        # Only a wiring that went through counts: a failure is met again on the next attempt
+        self._is_wired = True
 
     def get_next_descriptor_and_index(self):
         index = self.next_index()
